@@ -4,11 +4,12 @@ use crate::support::*;
 use educe::Educe;
 use core::cmp::Ordering;
 #[derive(Educe)]
-#[educe(PartialEq, Ord, Eq, PartialOrd)]
-pub struct T { #[educe(Ord(rank("0"), method = m_cmp))] y: A<0>, #[educe(Ord(rank(-3), method = "m_cmp"))] _0: A<0>, #[educe(Ord(rank = "3"))] builder: A<0> }
-
-pub fn values() -> Vec<T> { vec![T { y: A(0), _0: A(0), builder: A(0) }, T { y: A(0), _0: A(0), builder: A(1) }, T { y: A(0), _0: A(0), builder: A(7) }, T { y: A(0), _0: A(1), builder: A(0) }, T { y: A(0), _0: A(1), builder: A(1) }, T { y: A(0), _0: A(1), builder: A(7) }, T { y: A(0), _0: A(7), builder: A(0) }, T { y: A(0), _0: A(7), builder: A(1) }, T { y: A(0), _0: A(7), builder: A(7) }, T { y: A(1), _0: A(0), builder: A(0) }, T { y: A(1), _0: A(0), builder: A(1) }, T { y: A(1), _0: A(0), builder: A(7) }, T { y: A(1), _0: A(1), builder: A(0) }, T { y: A(1), _0: A(1), builder: A(1) }, T { y: A(1), _0: A(1), builder: A(7) }, T { y: A(1), _0: A(7), builder: A(0) }, T { y: A(1), _0: A(7), builder: A(1) }, T { y: A(1), _0: A(7), builder: A(7) }, T { y: A(7), _0: A(0), builder: A(0) }, T { y: A(7), _0: A(0), builder: A(1) }, T { y: A(7), _0: A(0), builder: A(7) }, T { y: A(7), _0: A(1), builder: A(0) }, T { y: A(7), _0: A(1), builder: A(1) }, T { y: A(7), _0: A(1), builder: A(7) }, T { y: A(7), _0: A(7), builder: A(0) }, T { y: A(7), _0: A(7), builder: A(1) }, T { y: A(7), _0: A(7), builder: A(7) }] }
-pub fn show(x: &T) -> String { #[allow(unused_variables)] match x { T { y: p0, _0: p1, builder: p2 } => format!("T({},{},{})", sv(p0), sv(p1), sv(p2)) } }
-pub fn o_disc(x: &T) -> i128 { match x { T { y: _, _0: _, builder: _ } => 0 } }
-pub fn o_cmp(a: &T, b: &T) -> Ordering { match (a, b) { (T { y: a0, _0: a1, builder: a2 }, T { y: b0, _0: b1, builder: b2 }) => { let c = m_cmp(a1, b1); if c != Ordering::Equal { return c; } let c = m_cmp(a0, b0); if c != Ordering::Equal { return c; } let c = ::core::cmp::Ord::cmp(a2, b2); if c != Ordering::Equal { return c; } Ordering::Equal } } }
-pub fn run(out: &mut Out) { let vs = values(); for (i, a) in vs.iter().enumerate() { for (j, b) in vs.iter().enumerate() { let e = o_cmp(a, b); let g = ::core::cmp::Ord::cmp(a, b); out.check(g == e, "ord_6", "cmp", || format!("cmp({}, {}) = {:?} expected {:?}", show(a), show(b), g, e)); let g2 = ::core::cmp::PartialOrd::partial_cmp(a, b); out.check(g2 == Some(e), "ord_6", "partial_is_some_cmp", || format!("partial_cmp({}, {}) = {:?} expected Some({:?})", show(a), show(b), g2, e)); } } }
+#[repr(i32)]
+#[educe(Eq, Ord, PartialEq)]
+pub enum T { B(#[educe(Ord(rank = 0x1, method(m_cmp)))] A<0>, #[educe(Ord(method(m_cmp)))] A<1>) = -1, Some() = 1000 }
+impl PartialOrd for T { fn partial_cmp(&self, o: &Self) -> Option<Ordering> { Some(::core::cmp::Ord::cmp(self, o)) } }
+pub fn values() -> Vec<T> { vec![T::B(A(0), A(0)), T::B(A(0), A(1)), T::B(A(0), A(7)), T::B(A(1), A(0)), T::B(A(1), A(1)), T::B(A(1), A(7)), T::B(A(7), A(0)), T::B(A(7), A(1)), T::B(A(7), A(7)), T::Some()] }
+pub fn show(x: &T) -> String { #[allow(unused_variables)] match x { T::B(p0, p1) => format!("B({},{})", sv(p0), sv(p1)), T::Some() => format!("Some()") } }
+pub fn o_disc(x: &T) -> i128 { match x { T::B(_, _) => -1, T::Some() => 1000 } }
+pub fn o_cmp(a: &T, b: &T) -> Ordering { match (a, b) { (T::B(a0, a1), T::B(b0, b1)) => { let c = m_cmp(a1, b1); if c != Ordering::Equal { return c; } let c = m_cmp(a0, b0); if c != Ordering::Equal { return c; } Ordering::Equal }, (T::Some(), T::Some()) => {  Ordering::Equal }, _ => o_disc(a).cmp(&o_disc(b)) } }
+pub fn run(out: &mut Out) { let vs = values(); for (i, a) in vs.iter().enumerate() { for (j, b) in vs.iter().enumerate() { let e = o_cmp(a, b); let g = ::core::cmp::Ord::cmp(a, b); out.check(g == e, "ord_6", "cmp", || format!("cmp({}, {}) = {:?} expected {:?}", show(a), show(b), g, e)); } } }
